@@ -76,6 +76,19 @@ def campaign(camp, modname, runs, shards, label="fuzz"):
                 pass
             camp.harness_error("fuzz shard %d of %s produced no result (%r, rc=%s): %s" % (k, modname, ex, p.returncode, tail))
             continue
+        if p.returncode != 0:
+            # libFuzzer stopped the shard (its crash / out-of-memory / time-out watchdogs): what ran is kept, the stop itself is a harness error (exit 2), never a pass
+            arts = sorted(f for f in os.listdir(root) if f.startswith("art"))
+            tail = ""
+            try:
+                tail = open(os.path.join(root, "log%d.txt" % k)).read()[-600:]
+            except Exception:
+                pass
+            keep = os.path.join(env.VERIF_ROOT, "out", "fuzz-artifacts")
+            os.makedirs(keep, exist_ok=True)
+            for f in arts:
+                shutil.copy(os.path.join(root, f), os.path.join(keep, f))
+            camp.harness_error("fuzz shard %d of %s ended with rc=%s after %d executions (artifacts kept in out/fuzz-artifacts: %s): %s" % (k, modname, p.returncode, d.get("execs", 0), arts, tail))
         n = d["evaluations"]
         total += n
         d["classes"] = dict(d["classes"])
@@ -141,6 +154,13 @@ def _child(modname, out, seed, runs, cdir):
         with open(os.path.join(cdir, "seed%03d" % i), "wb") as fp:
             fp.write(s if isinstance(s, bytes) else s.encode())
     argv = [sys.argv[0], "-runs=%d" % runs, "-seed=%d" % seed, "-max_len=%d" % opts.get("max_len", 512), "-print_final_stats=0", "-verbosity=0"]
+    # artifacts (crash-, oom-, slow-unit- files) go next to the shard's result, never into the working directory
+    argv += ["-artifact_prefix=" + os.path.join(os.path.dirname(out), "art%d-" % os.getpid()), "-report_slow_units=600"]
+    if opts.get("memory_cap_gib"):
+        # the address space is bounded instead of libFuzzer's resident-set watchdog: an input that asks for an enormous object then raises
+        # MemoryError inside the target, where the oracle judges it like any other exception, and the campaign goes on
+        env.cap_memory(opts["memory_cap_gib"])
+        argv += ["-rss_limit_mb=0", "-malloc_limit_mb=0"]
     toks = opts.get("dict")
     if toks:
         dpath = os.path.join(os.path.dirname(out), "dict-%d.txt" % os.getpid())
